@@ -32,16 +32,46 @@ pub fn variant_name(v: &Value) -> &'static str {
     }
 }
 
-/// the payload of a real `Value` in the model's vocabulary; `None` for variants outside the statement model (arrays, vectors)
+/// the text between the quotes of a date / time / uuid / network literal, written from the value's components by this
+/// harness (not by the crate): the formats are the ones the crate documents (`YYYY-MM-DD`, `HH:MM:SS`, `YYYY-MM-DD HH:MM:SS`,
+/// `.. +HH:MM` with a zone, six sub-second digits for the `time` crate's types, the hyphenated lower-case uuid,
+/// `address/prefix`, colon-separated upper-case octets)
+pub fn quoted_text(v: &Value) -> Option<String> {
+    use chrono::{Datelike, Offset, Timelike};
+    let cd = |d: chrono::NaiveDate| format!("{:04}-{:02}-{:02}", d.year(), d.month(), d.day());
+    let ct = |t: chrono::NaiveTime| format!("{:02}:{:02}:{:02}", t.hour(), t.minute(), t.second());
+    let off = |secs: i32| format!("{}{:02}:{:02}", if secs < 0 { '-' } else { '+' }, secs.abs() / 3600, secs.abs() % 3600 / 60);
+    let td = |d: time::Date| format!("{:04}-{:02}-{:02}", d.year(), d.month() as u8, d.day());
+    let tt = |t: time::Time| format!("{:02}:{:02}:{:02}.{:06}", t.hour(), t.minute(), t.second(), t.microsecond());
+    Some(match v {
+        Value::ChronoDate(Some(d)) => cd(**d),
+        Value::ChronoTime(Some(t)) => ct(**t),
+        Value::ChronoDateTime(Some(x)) => format!("{} {}", cd(x.date()), ct(x.time())),
+        Value::ChronoDateTimeUtc(Some(x)) => format!("{} {} +00:00", cd(x.naive_utc().date()), ct(x.naive_utc().time())),
+        Value::ChronoDateTimeLocal(Some(x)) => format!("{} {} {}", cd(x.naive_local().date()), ct(x.naive_local().time()), off(x.offset().fix().local_minus_utc())),
+        Value::ChronoDateTimeWithTimeZone(Some(x)) => format!("{} {} {}", cd(x.naive_local().date()), ct(x.naive_local().time()), off(x.offset().fix().local_minus_utc())),
+        Value::TimeDate(Some(d)) => td(**d),
+        Value::TimeTime(Some(t)) => tt(**t),
+        Value::TimeDateTime(Some(x)) => format!("{} {}", td(x.date()), tt(x.time())),
+        Value::TimeDateTimeWithTimeZone(Some(x)) => format!("{} {} {}", td(x.date()), tt(x.time()), off(x.offset().whole_seconds())),
+        Value::Uuid(Some(u)) => { let h = format!("{:032x}", u.as_u128()); format!("{}-{}-{}-{}-{}", &h[0..8], &h[8..12], &h[12..16], &h[16..20], &h[20..32]) }
+        Value::IpNetwork(Some(n)) => format!("{}/{}", n.ip(), n.prefix()),
+        Value::MacAddress(Some(m)) => m.bytes().iter().map(|b| format!("{b:02X}")).collect::<Vec<_>>().join(":"),
+        _ => return None,
+    })
+}
+
+/// the payload of a real `Value` in the model's vocabulary; `None` for variants outside the statement model (arrays, vectors).
+/// Nothing here asks the crate for text, except for the two binary floating-point types, whose shortest round-trip digits are
+/// Rust's own (`c01` checks that the literal reads back as exactly the value)
 pub fn payload_of(v: &Value) -> Option<Pay> {
-    let lit = || sea_query::SqliteQueryBuilder.value_to_string(v);
-    let unquote = |s: String| s[1..s.len() - 1].to_string();
     Some(match v {
         Value::Bool(Some(b)) => Pay::Bool(*b),
         Value::TinyInt(Some(x)) => Pay::Int(*x as i128), Value::SmallInt(Some(x)) => Pay::Int(*x as i128), Value::Int(Some(x)) => Pay::Int(*x as i128),
         Value::BigInt(Some(x)) => Pay::Int(*x as i128), Value::TinyUnsigned(Some(x)) => Pay::Int(*x as i128), Value::SmallUnsigned(Some(x)) => Pay::Int(*x as i128),
         Value::Unsigned(Some(x)) => Pay::Int(*x as i128), Value::BigUnsigned(Some(x)) => Pay::Int(*x as i128),
-        Value::Float(Some(_)) | Value::Double(Some(_)) | Value::Decimal(Some(_)) | Value::BigDecimal(Some(_)) => Pay::Num(lit()),
+        Value::Float(Some(x)) => Pay::Num(format!("{x:?}")), Value::Double(Some(x)) => Pay::Num(format!("{x:?}")),
+        Value::Decimal(Some(x)) => Pay::Num(x.to_string()), Value::BigDecimal(Some(x)) => Pay::Num(x.to_string()),
         Value::String(Some(s)) => Pay::Str((**s).clone()),
         Value::Char(Some(c)) => Pay::Str(c.to_string()),
         Value::Json(Some(j)) => Pay::Str(j.to_string()),
@@ -49,7 +79,7 @@ pub fn payload_of(v: &Value) -> Option<Pay> {
         Value::ChronoDate(Some(_)) | Value::ChronoTime(Some(_)) | Value::ChronoDateTime(Some(_)) | Value::ChronoDateTimeUtc(Some(_))
         | Value::ChronoDateTimeLocal(Some(_)) | Value::ChronoDateTimeWithTimeZone(Some(_)) | Value::TimeDate(Some(_)) | Value::TimeTime(Some(_))
         | Value::TimeDateTime(Some(_)) | Value::TimeDateTimeWithTimeZone(Some(_)) | Value::Uuid(Some(_)) | Value::IpNetwork(Some(_))
-        | Value::MacAddress(Some(_)) => Pay::Quoted(unquote(lit())),
+        | Value::MacAddress(Some(_)) => Pay::Quoted(quoted_text(v).expect("quoted kinds")),
         Value::Array(_, Some(_)) | Value::Vector(Some(_)) => return None,
         _ => Pay::Null,
     })
@@ -315,8 +345,20 @@ pub fn build_fn(f: &Fun, distinct: bool, args: &[Ex]) -> FunctionCall {
             _ => panic!("fn id"),
         },
         Fun::Pg(i) => match i {
-            0 => (PgFunc::to_tsquery(first(), None), 1), 1 => (PgFunc::to_tsvector(first(), None), 1), 2 => (PgFunc::phraseto_tsquery(first(), None), 1),
-            3 => (PgFunc::plainto_tsquery(first(), None), 1), 4 => (PgFunc::websearch_to_tsquery(first(), None), 1),
+            // with a text-search configuration OID (an Unsigned value as the first argument) the two-argument constructor form is used
+            0..=4 => {
+                let cfg = match (args.first(), args.len() >= 2) { (Some(Ex::Val(v)), true) => match v.real { Value::Unsigned(Some(n)) => Some(n), _ => None }, _ => None };
+                let (e, used) = if cfg.is_some() { (a[1].clone(), 2) } else { (first(), 1) };
+                (match i { 0 => PgFunc::to_tsquery(e, cfg), 1 => PgFunc::to_tsvector(e, cfg), 2 => PgFunc::phraseto_tsquery(e, cfg), 3 => PgFunc::plainto_tsquery(e, cfg), _ => PgFunc::websearch_to_tsquery(e, cfg) }, used)
+            }
+            9 => { let k = a.len() / 2; (PgFunc::json_build_object((0..k).map(|j| (a[2 * j].clone(), a[2 * j + 1].clone())).collect()), 2 * k) }
+            12 => {
+                use sea_query::PgDateTruncUnit as U;
+                let unit = match &args[0] { Ex::Val(v) => match &v.real { Value::String(Some(s)) => s.to_string(), _ => panic!("date_trunc unit") }, _ => panic!("date_trunc unit") };
+                let u = match unit.as_str() { "microseconds" => U::Microseconds, "milliseconds" => U::Milliseconds, "second" => U::Second, "minute" => U::Minute, "hour" => U::Hour, "day" => U::Day, "week" => U::Week,
+                    "month" => U::Month, "quarter" => U::Quarter, "year" => U::Year, "decade" => U::Decade, "century" => U::Century, "millennium" => U::Millennium, _ => panic!("date_trunc unit") };
+                (PgFunc::date_trunc(u, a[1].clone()), 2)
+            }
             5 => (PgFunc::ts_rank(first(), a[1].clone()), 2), 6 => (PgFunc::ts_rank_cd(first(), a[1].clone()), 2),
             7 => (PgFunc::starts_with(first(), a[1].clone()), 2), 8 => (PgFunc::gen_random_uuid(), 0),
             10 => (PgFunc::json_agg(first()), 1), 11 => (if distinct { PgFunc::array_agg_distinct(first()) } else { PgFunc::array_agg(first()) }, 1),
@@ -329,7 +371,7 @@ pub fn build_fn(f: &Fun, distinct: bool, args: &[Ex]) -> FunctionCall {
 }
 /// minimum number of arguments the constructor used by `build_fn` needs
 pub fn fn_min_args(f: &Fun) -> usize {
-    match f { Fun::Custom(_) => 0, Fun::Std(i) => match i { 5 | 8 | 9 | 16 => 0, 7 => 2, _ => 1 }, Fun::Pg(i) => match i { 8 => 0, 5 | 6 | 7 => 2, _ => 1 } }
+    match f { Fun::Custom(_) => 0, Fun::Std(i) => match i { 5 | 8 | 9 | 16 => 0, 7 => 2, _ => 1 }, Fun::Pg(i) => match i { 8 | 9 => 0, 5 | 6 | 7 | 12 => 2, _ => 1 } }
 }
 
 impl Ex {
@@ -592,6 +634,22 @@ impl Real {
         if any { each_real!(self, s => s.build_collect_any(&*q, &mut w)) }
         else { each_real!(self, s => match b { B::Mysql => s.build_collect(MysqlQueryBuilder, &mut w), B::Postgres => s.build_collect(PostgresQueryBuilder, &mut w), B::Sqlite => s.build_collect(SqliteQueryBuilder, &mut w) }) }
     }
+    /// the required methods themselves: `build_collect_into` / `build_collect_any_into` append to a writer that already holds text
+    pub fn collect_into_string(&self, b: B, any: bool, prefix: &str) -> String {
+        let q = crate::sq::qb(b);
+        let mut w = String::from(prefix);
+        if any { each_real!(self, s => s.build_collect_any_into(&*q, &mut w)) }
+        else { each_real!(self, s => match b { B::Mysql => s.build_collect_into(MysqlQueryBuilder, &mut w), B::Postgres => s.build_collect_into(PostgresQueryBuilder, &mut w), B::Sqlite => s.build_collect_into(SqliteQueryBuilder, &mut w) }) }
+        w
+    }
+    pub fn collect_into_values(&self, b: B, any: bool) -> (String, Values) {
+        let q = crate::sq::qb(b);
+        let (ph, numbered) = q.placeholder();
+        let mut w = SqlWriterValues::new(ph, numbered);
+        if any { each_real!(self, s => s.build_collect_any_into(&*q, &mut w)) }
+        else { each_real!(self, s => match b { B::Mysql => s.build_collect_into(MysqlQueryBuilder, &mut w), B::Postgres => s.build_collect_into(PostgresQueryBuilder, &mut w), B::Sqlite => s.build_collect_into(SqliteQueryBuilder, &mut w) }) }
+        w.into_parts()
+    }
     pub fn debug(&self) -> String { each_real!(self, s => format!("{s:?}")) }
 }
 impl Query {
@@ -617,6 +675,11 @@ pub const TYPES: &[&str] = &["text", "integer", "my_enum", "FontSize", "varchar(
 /// type names written verbatim (`CAST(x AS <raw>)`): in tame mode only text that is closed in every dialect
 pub const CLOSED_TYPES: &[&str] = &["text", "integer", "my_enum", "varchar(10)", "decimal(10, 2)"];
 
+fn gen_date(r: &mut SplitMix64) -> chrono::NaiveDate { chrono::NaiveDate::from_ymd_opt(*r.pick(&[1, 987, 1969, 1970, 2000, 2024, 9999]), 1 + r.below(12) as u32, 1 + r.below(28) as u32).unwrap() }
+fn gen_time(r: &mut SplitMix64) -> chrono::NaiveTime { chrono::NaiveTime::from_hms_micro_opt(r.below(24) as u32, r.below(60) as u32, r.below(60) as u32, if r.chance(1, 3) { r.below(1_000_000) as u32 } else { 0 }).unwrap() }
+fn gen_offset(r: &mut SplitMix64) -> chrono::FixedOffset { chrono::FixedOffset::east_opt((r.below(27) as i32 - 13) * 3600 + (r.below(2) as i32) * 1800).unwrap() }
+fn gen_tdate(r: &mut SplitMix64) -> time::Date { time::Date::from_calendar_date(*r.pick(&[1, 987, 1969, 1970, 2000, 2024, 9999]), time::Month::try_from(1 + r.below(12) as u8).unwrap(), 1 + r.below(28) as u8).unwrap() }
+fn gen_ttime(r: &mut SplitMix64) -> time::Time { time::Time::from_hms_micro(r.below(24) as u8, r.below(60) as u8, r.below(60) as u8, if r.chance(1, 2) { r.below(1_000_000) as u32 } else { 0 }).unwrap() }
 pub struct Gen { pub rng: SplitMix64, pub b: B, /// only constructs every backend renders without panicking and whose raw text is closed
     pub tame: bool,
     /// a template with a placeholder inside `[..]` was generated (known finding C01-template-mark-in-brackets)
@@ -633,7 +696,7 @@ impl Gen {
     fn name(&mut self) -> String { if self.tame || self.rng.chance(3, 4) { self.rng.pick(PLAIN_NAMES).to_string() } else { self.rng.pick(NAMES).to_string() } }
     pub fn value(&mut self) -> Val {
         let r = &mut self.rng;
-        let v: Value = match r.below(24) {
+        let v: Value = match r.below(38) {
             0 => Value::Int(Some(r.below(2000) as i32 - 1000)), 1 => Value::Int(None), 2 => Value::BigInt(Some(r.next() as i64)), 3 => Value::BigUnsigned(Some(r.next())),
             4 => Value::BigUnsigned(Some(u64::MAX - r.below(3))), 5 => Value::TinyInt(Some(r.next() as i8)), 6 => Value::SmallUnsigned(Some(r.next() as u16)),
             7 => Value::Bool(Some(r.chance(1, 2))), 8 => Value::Bool(None),
@@ -641,13 +704,34 @@ impl Gen {
             10 => Value::String(Some(Box::new(random_string(r, 6).replace('\0', "")))), /* NUL: not representable in Postgres / SQLite literals (C03) */ 11 => Value::String(None),
             12 => Value::Char(Some(*r.pick(&['x', '\'', '\\', '?', 'é', '\n']))),
             13 => Value::Bytes(Some(Box::new((0..r.below(5)).map(|_| r.next() as u8).collect()))),
-            14 => Value::Double(Some(*r.pick(&[0.0, 1.5, -2.25, 1e10, 3.0e-5, 123456.789]))), 15 => Value::Float(Some(*r.pick(&[0.5f32, -1.0, 2.75]))),
+            14 => Value::Double(Some(*r.pick(&[0.0, 1.5, -2.25, 1e10, 3.0e-5, 123456.789, 7.0, -0.0, 1e21, 2.5e-7]))), 15 => Value::Float(Some(*r.pick(&[0.5f32, -1.0, 2.75, 3.0, 0.1]))),
             16 => Value::Double(None),
-            17 => Value::ChronoDate(Some(Box::new(chrono::NaiveDate::from_ymd_opt(2000 + r.below(30) as i32, 1 + r.below(12) as u32, 1 + r.below(28) as u32).unwrap()))),
+            17 => Value::ChronoDate(Some(Box::new(gen_date(r)))),
             18 => Value::Uuid(Some(Box::new(uuid::Uuid::from_u128(((r.next() as u128) << 64) | r.next() as u128)))),
             19 => Value::Decimal(Some(Box::new(rust_decimal::Decimal::new(r.below(100000) as i64 - 50000, r.below(4) as u32)))),
             20 => Value::Json(Some(Box::new(serde_json::json!({"k": r.below(10), "s": "it's"})))),
             21 => Value::Unsigned(Some(r.next() as u32)), 22 => Value::SmallInt(Some(r.next() as i16)),
+            23 => Value::ChronoTime(Some(Box::new(gen_time(r)))),
+            24 => Value::ChronoDateTime(Some(Box::new(gen_date(r).and_time(gen_time(r))))),
+            25 => Value::ChronoDateTimeUtc(Some(Box::new(gen_date(r).and_time(gen_time(r)).and_utc()))),
+            26 => Value::ChronoDateTimeWithTimeZone(Some(Box::new(gen_date(r).and_time(gen_time(r)).and_utc().with_timezone(&gen_offset(r))))),
+            27 => Value::ChronoDateTimeLocal(Some(Box::new(gen_date(r).and_time(gen_time(r)).and_utc().with_timezone(&chrono::Local)))),
+            28 => Value::TimeDate(Some(Box::new(gen_tdate(r)))),
+            29 => Value::TimeTime(Some(Box::new(gen_ttime(r)))),
+            30 => Value::TimeDateTime(Some(Box::new(time::PrimitiveDateTime::new(gen_tdate(r), gen_ttime(r))))),
+            31 => Value::TimeDateTimeWithTimeZone(Some(Box::new(time::PrimitiveDateTime::new(gen_tdate(r), gen_ttime(r)).assume_offset(time::UtcOffset::from_whole_seconds((r.below(27) as i32 - 13) * 3600 + (r.below(2) as i32) * 1800).unwrap())))),
+            32 => Value::BigDecimal(Some(Box::new(bigdecimal::BigDecimal::new((r.below(2_000_000) as i64 - 1_000_000).into(), r.below(5) as i64)))),
+            33 => Value::IpNetwork(Some(Box::new(ipnetwork::IpNetwork::new(std::net::IpAddr::V4(std::net::Ipv4Addr::from(r.next() as u32)), r.below(33) as u8).unwrap()))),
+            34 => Value::MacAddress(Some(Box::new(mac_address::MacAddress::new([r.next() as u8, r.next() as u8, r.next() as u8, r.next() as u8, r.next() as u8, r.next() as u8])))),
+            // the NULL of every variant the statement model knows
+            35 => match r.below(24) {
+                0 => Value::TinyInt(None), 1 => Value::SmallInt(None), 2 => Value::BigInt(None), 3 => Value::TinyUnsigned(None), 4 => Value::SmallUnsigned(None), 5 => Value::Unsigned(None),
+                6 => Value::BigUnsigned(None), 7 => Value::Float(None), 8 => Value::Char(None), 9 => Value::Bytes(None), 10 => Value::Json(None), 11 => Value::ChronoDate(None), 12 => Value::ChronoTime(None),
+                13 => Value::ChronoDateTime(None), 14 => Value::ChronoDateTimeUtc(None), 15 => Value::ChronoDateTimeLocal(None), 16 => Value::ChronoDateTimeWithTimeZone(None), 17 => Value::TimeDate(None),
+                18 => Value::TimeTime(None), 19 => Value::TimeDateTime(None), 20 => Value::TimeDateTimeWithTimeZone(None), 21 => Value::Uuid(None),
+                22 => r.pick(&[Value::Decimal(None), Value::BigDecimal(None)]).clone(), _ => r.pick(&[Value::IpNetwork(None), Value::MacAddress(None)]).clone(),
+            },
+            36 => Value::TinyUnsigned(Some(r.next() as u8)),
             _ => Value::Int(Some(r.below(10) as i32)),
         };
         val(v)
@@ -733,13 +817,20 @@ impl Gen {
     fn func(&mut self, d: u32) -> Ex {
         let f = match self.rng.below(12) {
             0 => Fun::Custom(if self.plain { self.rng.pick(&["my_fn", "json_extract", "date"]).to_string() } else { self.rng.pick(&["my_fn", "json_extract", "f g", "date"]).to_string() }),
-            1 if self.b == B::Postgres || (!self.tame && self.rng.chance(1, 8)) => Fun::Pg(*self.rng.pick(&[0u32, 1, 2, 3, 4, 5, 6, 7, 8, 10, 11, 13, 14, 15])),
+            1 if self.b == B::Postgres || (!self.tame && self.rng.chance(1, 8)) => Fun::Pg(*self.rng.pick(&[0u32, 1, 2, 3, 4, 5, 6, 7, 8, 9, 10, 11, 12, 13, 14, 15])),
             _ => loop { let i = self.rng.below(19) as u32; if i != 11 { break Fun::Std(i); } },
         };
         let n = fn_min_args(&f) + if self.rng.chance(1, 4) { self.rng.below(3) as usize } else { 0 };
         let n = if matches!(f, Fun::Std(16) | Fun::Pg(8)) { 0 } else { n };
         let distinct = matches!(f, Fun::Std(6) | Fun::Pg(11)) && self.rng.chance(1, 3);
-        Ex::Func(f, distinct, (0..n).map(|_| self.ex(d)).collect())
+        let mut args: Vec<Ex> = (0..n).map(|_| self.ex(d)).collect();
+        match f {
+            Fun::Pg(0..=4) if self.rng.chance(1, 3) => args.insert(0, Ex::Val(val(Value::Unsigned(Some(self.rng.below(20000) as u32))))),
+            Fun::Pg(9) => { let k = self.rng.below(3) as usize; args = (0..2 * k).map(|j| if j % 2 == 0 { Ex::Val(val(Value::String(Some(Box::new(format!("k{j}")))))) } else { self.ex(d) }).collect(); }
+            Fun::Pg(12) => { let u = *self.rng.pick(&["microseconds", "milliseconds", "second", "minute", "hour", "day", "week", "month", "quarter", "year", "decade", "century", "millennium"]); args[0] = Ex::Val(val(Value::String(Some(Box::new(u.to_string()))))); }
+            _ => {}
+        }
+        Ex::Func(f, distinct, args)
     }
     pub fn cond(&mut self, depth: u32) -> Cond {
         let n = match self.rng.below(10) { 0 => 0, 1 | 2 | 3 => 1, 4 | 5 | 6 => 2, 7 | 8 => 3, _ => 4 };
